@@ -78,7 +78,7 @@ func (w *World) skipSites(pkgPrefixes ...string) []skipSite {
 						ks = append(ks, f)
 					}
 					for cl := range a.Calls {
-						if cl = strings.TrimPrefix(cl, "inlined:"); !isPlumbingCall(cl) {
+						if cl = normCallName(strings.TrimPrefix(cl, "inlined:")); !isPlumbingCall(cl) {
 							ks = append(ks, "call:"+cl)
 						}
 					}
